@@ -7,7 +7,7 @@ bad = 0
 for d in sorted(glob.glob("/verif/benign/*/")):
     assert sh(f"git -C /repo apply {d}patch.diff").returncode == 0, d
     try:
-        out = sh("cd /verif && /venv/bin/python -m hsa check all", timeout=900).stdout
+        out = sh("cd /verif && HSA_NO_CANARY=1 /venv/bin/python -m hsa check all", timeout=900).stdout
     finally:
         sh("git -C /repo checkout -- .")
     viol = sorted(set(re.findall(r"VIOLATION property=(C\d+)", out))); errs = sorted(set(re.findall(r"ANALYSIS-ERROR property=(C\d+)", out)))
